@@ -4,6 +4,7 @@ import (
 	"bytes"
 	"fmt"
 	"time"
+	_ "time/tzdata" // embedded time zone database: civil zones with DST rules without depending on the host
 
 	"github.com/free5gc/nas/nasConvert"
 	"github.com/free5gc/openapi/models"
@@ -31,8 +32,9 @@ type c17Zone struct {
 }
 
 type c17Stamp struct {
-	Unix      int64 `json:"unix"`
-	OffsetSec int   `json:"zone_offset_seconds"`
+	Unix      int64  `json:"unix"`
+	OffsetSec int    `json:"zone_offset_seconds"`
+	Location  string `json:"location,omitempty"` // IANA name: a civil time zone with daylight saving rules
 }
 
 type c17Name struct {
@@ -163,7 +165,21 @@ func c17ZoneExec(c *core.Ctx, in c17Zone) {
 
 func c17StampExec(c *core.Ctx, in c17Stamp) {
 	loc := time.FixedZone("x", in.OffsetSec)
+	if in.Location != "" {
+		l, err := time.LoadLocation(in.Location)
+		if err != nil {
+			c.Note("time zone database has no " + in.Location)
+			return
+		}
+		loc = l
+	}
 	t := time.Unix(in.Unix, 0).In(loc)
+	if in.Location != "" {
+		_, in.OffsetSec = t.Zone()
+		if in.OffsetSec%900 != 0 {
+			return // historical offsets off the quarter-hour grid are outside the element's domain
+		}
+	}
 	var back time.Time
 	var oct [7]byte
 	pi := core.Try(func() {
@@ -178,6 +194,9 @@ func c17StampExec(c *core.Ctx, in c17Stamp) {
 	}
 	want := [7]byte{refconv.SemiOctetBCD(t.Year() % 100), refconv.SemiOctetBCD(int(t.Month())), refconv.SemiOctetBCD(t.Day()),
 		refconv.SemiOctetBCD(t.Hour()), refconv.SemiOctetBCD(t.Minute()), refconv.SemiOctetBCD(t.Second()), refconv.TimeZoneOctet(in.OffsetSec / 900)}
+	if in.OffsetSec == 0 && oct[6] == 0x08 {
+		want[6] = 0x08 // a zero offset may carry either sign
+	}
 	if oct != want {
 		fail("octets", fmt.Sprintf("%s encodes to %x, semi-octet coding is %x", t.Format(time.RFC3339), oct, want))
 		return
@@ -303,7 +322,7 @@ func c17Run(c *core.Ctx) {
 					loc := time.FixedZone("x", z)
 					for _, hms := range [][3]int{{0, 0, 0}, {23, 59, 59}} {
 						t := time.Date(y, time.Month(m), d, hms[0], hms[1], hms[2], 0, loc)
-						c17StampExec(c, c17Stamp{t.Unix(), z})
+						c17StampExec(c, c17Stamp{Unix: t.Unix(), OffsetSec: z})
 						n++
 					}
 				}
@@ -320,8 +339,34 @@ func c17Run(c *core.Ctx) {
 			}
 			base := time.Date(day.Year(), day.Month(), day.Day(), 0, 0, 0, 0, time.FixedZone("x", z)).Unix()
 			for s := int64(0); s < 86400; s++ {
-				c17StampExec(c, c17Stamp{base + s, z})
+				c17StampExec(c, c17Stamp{Unix: base + s, OffsetSec: z})
 				n++
+			}
+		}
+	}
+	// civil time zones with daylight saving rules (embedded time zone database): every day of four years at noon,
+	// and every hour of the two transition months, in zones west and east of Greenwich incl. half-hour rules
+	civil := []string{"America/New_York", "America/St_Johns", "America/Los_Angeles", "America/Sao_Paulo", "Europe/Berlin", "Europe/London",
+		"Atlantic/Azores", "Australia/Lord_Howe", "Australia/Adelaide", "Pacific/Chatham", "Asia/Kolkata", "Pacific/Auckland", "America/Havana"}
+	for li, name := range civil {
+		if !c.Mine(li + 7) {
+			continue
+		}
+		if !c.Begin("stamps-civil", "UniversalTime", map[string]string{"location": name}) {
+			continue
+		}
+		for _, y := range []int{2000, 2024, 2025, 2037} {
+			for d := 0; d < 366; d++ {
+				t := time.Date(y, 1, 1, 12, 0, 0, 0, time.UTC).AddDate(0, 0, d)
+				c17StampExec(c, c17Stamp{Unix: t.Unix(), Location: name})
+				n++
+			}
+			for _, m := range []time.Month{3, 4, 10, 11} {
+				for h := 0; h < 24*31; h++ {
+					t := time.Date(y, m, 1, 0, 30, 0, 0, time.UTC).Add(time.Duration(h) * time.Hour)
+					c17StampExec(c, c17Stamp{Unix: t.Unix(), Location: name})
+					n++
+				}
 			}
 		}
 	}
@@ -382,7 +427,7 @@ func init() {
 		ID: "C17", Level: "exploration", Run: c17Run,
 		Shards: func(string) int { return 16 },
 		Rule: func(string) string {
-			return "complete enumeration: every duration 0..1 116 000 s (timer 3) and 0..11 160 s (timer 2); all 65 536 AMBR values x 5 units x 2 directions; all 159 quarter-hour zones x DST 0/1/2 inside the stated domain; every day of 2000-2099 at 00:00:00 and 23:59:59 in 5 zones and every second of 4 days in 5 zones; names of every length 0..64 with 4 patterns and every septet value at every position for lengths <= 17, both name functions. Oracle: unit tables of TS 24.008 10.5.7.4/10.5.7.4a (decode(encode(d)) = d for representable d, <= d always), Table 9.11.4.14.1 unit codes and 16-bit big-endian values, semi-octet BCD time coding with sign bit, GSM 7-bit unpacking per TS 23.038 returning exactly the name's septets from ceil(7n/8) octets with (8 - 7n mod 8) mod 8 spare bits."
+			return "complete enumeration: every duration 0..1 116 000 s (timer 3) and 0..11 160 s (timer 2); all 65 536 AMBR values x 5 units x 2 directions; all 159 quarter-hour zones x DST 0/1/2 inside the stated domain; every day of 2000-2099 at 00:00:00 and 23:59:59 in 5 fixed zones, every second of 4 days in 5 zones, and 13 civil time zones with daylight-saving rules (embedded tz database; every day of 4 years at noon and every hour of the transition months); names of every length 0..64 with 4 patterns and every septet value at every position for lengths <= 17, both name functions. Oracle: unit tables of TS 24.008 10.5.7.4/10.5.7.4a (decode(encode(d)) = d for representable d, <= d always), Table 9.11.4.14.1 unit codes and 16-bit big-endian values, semi-octet BCD time coding with sign bit, GSM 7-bit unpacking per TS 23.038 returning exactly the name's septets from ceil(7n/8) octets with (8 - 7n mod 8) mod 8 spare bits."
 		},
 		Assumptions: []string{
 			"zone/DST combinations whose effective offset crosses zero or leaves ±19:45 are outside the stated domain (no such zone exists; counted, not asserted)",
